@@ -87,6 +87,21 @@ static inline void planDump(TPlan plan, Log& L, int region, int cap, char tag) {
 	L.nl();
 }
 
+// the same list read through a const Plan handle (its own iterator type)
+template <typename TPlan>
+static inline void planDumpConst(const TPlan& plan, Log& L, int region, int cap, char tag) {
+	L.tag(tag); L.i(region);
+	int n = 0;
+	std::vector<long> v;
+	for (auto it = plan.begin(); it; ++it) {
+		if (++n > cap + 1) break;
+		v.push_back((long)it->origin); v.push_back((long)it->destination); v.push_back((long)it->type); v.push_back(transId(*it));
+	}
+	L.i(n);
+	for (long x : v) L.i(x);
+	L.nl();
+}
+
 #endif
 
 } // namespace vh
